@@ -265,7 +265,7 @@ func propC04(cell c04Cell) hh.Verdict {
 
 func TestC04(t *testing.T) {
 	h := hh.Start(t, "C04",
-		"exhaustive decision table: node kind x modifier combination (required/default/catch/notnil) x input class (nil, missing key, empty, white-space forms incl. U+00A0 and U+3000, 0, 0.0, false, zero time, \"0\", \"false\", empty and nil slices, empty map, valid) x mode x placement (top, struct field, slice element, behind pointer, struct in slice, struct behind pointer); every enumerated cell is non-trivial and distinct by construction; random sub-check: generated schemas with absence-heavy inputs",
+		"exhaustive decision table: node kind x modifier combination (required/default/catch/notnil) x input class (nil, missing key, empty, white-space forms incl. U+00A0 and U+3000, 0, 0.0, false, zero time, \"0\", \"false\", empty and nil slices, empty map, valid) x mode x placement (top, struct field, slice element, behind pointer, struct in slice, struct behind pointer); every enumerated cell is non-trivial and distinct by construction; random sub-checks: generated schemas with absence-heavy inputs; the same records through every front end (Go map, zjson, zhttp JSON / form / query incl. []-suffixed parameters, zenv) where a missing leaf is a missing key, parameter or variable",
 		"observed per cell: required/not_nil issues, whole destination against sentinels (written or untouched), and how often each node's recorder test ran; expectation from the executable specification of the statement's table",
 		"cells whose coercion the documentation does not determine (e.g. float64 0 into Bool) are skipped and counted")
 	defer h.Finish()
@@ -289,6 +289,79 @@ func TestC04(t *testing.T) {
 			return hh.Verdict{Nontrivial: abs > 0, Classes: []string{"mode:" + mode}}
 		})
 	}
+	c04FrontEnds(h)
+}
+
+// c04FrontEnds: the same absence rules through every front end. A leaf the record lacks is a missing key / parameter /
+// variable there (for []-suffixed parameters too), an empty or blank string is absent, and "0"/"false" are present.
+func c04FrontEnds(h *hh.H) {
+	cfg := model.DefaultCfg("parse")
+	cfg.PPost, cfg.POpts, cfg.PCatch, cfg.PJunk = 0, 0, 0.05, 0
+	cfg.PAbsent, cfg.PVary, cfg.PDefault, cfg.PReq, cfg.PTestSat, cfg.PZogTag = 0.45, 0.3, 0.3, 0.5, 0.9, 0.2
+	hh.Sub(h, "front-ends", h.N(5000, 30000), func(rt *rapid.T) c14Case {
+		// the open findings about source tags below depth 1 and nested structs in flat sources (C10, C14) are avoided by construction
+		return genC14With(rt, cfg, true, true)
+	}, func(c c14Case) hh.Verdict {
+		if emptyObjectWithSourceTags(feCase{Root: c.Root, Logical: c.Logical, FE: model.FEJSON, Mode: "parse"}) {
+			return hh.Verdict{Skip: "open-finding-C14-source-tag-on-empty-object"}
+		}
+		abs := 0
+		countAbsent(c.Logical, &abs)
+		missing := 0
+		var walk func(n *model.Node, v model.Val)
+		walk = func(n *model.Node, v model.Val) {
+			if n.Kind == model.KPtr {
+				walk(n.Elem, v)
+				return
+			}
+			if n.Kind != model.KStruct || v.T != "map" {
+				return
+			}
+			have := map[string]model.Val{}
+			for _, kv := range v.M {
+				have[kv.K] = kv.V
+			}
+			for _, f := range n.Fields {
+				if fv, ok := have[f.Key]; ok {
+					walk(f.Node, fv)
+				} else {
+					missing++
+				}
+			}
+		}
+		walk(c.Root, c.Logical)
+		v := hh.Verdict{Nontrivial: abs+missing > 0}
+		for _, fe := range model.AllFrontEnds {
+			if len(c.FEs) > 0 && !contains(c.FEs, fe) {
+				continue
+			}
+			spec, res, exp, text, skip := runFE(feCase{Root: c.Root, Logical: c.Logical, FE: fe, Mode: "parse"}, false)
+			if skip != "" {
+				continue
+			}
+			if res.Panic != nil {
+				return hh.Fail("[%s] panic: %v (input %s)", fe, res.Panic, text)
+			}
+			if got := res.Norm(false); !model.EqualIssSpec(got, spec.Issues) {
+				return hh.Fail("[%s] issues differ from the absence rules applied to the record: got %s want %s (input %s)", fe, fmtIss(got), fmtIss(spec.Issues), text)
+			} else if len(got) == 0 && !spec.DestUnknown {
+				if g, w := model.CanonJSON(res.Dest.Elem()), model.CanonJSON(exp); g != w {
+					return hh.Fail("[%s] destination differs from the absence rules applied to the record: got %s want %s (input %s)", fe, g, w, text)
+				}
+			}
+			v.Classes = append(v.Classes, "fe:"+fe)
+		}
+		return v
+	})
+}
+
+func contains(l []string, s string) bool {
+	for _, x := range l {
+		if x == s {
+			return true
+		}
+	}
+	return false
 }
 
 func countAbsent(v model.Val, n *int) {
